@@ -77,30 +77,31 @@ type Mismatch struct {
 
 // Stats counts what was executed and compared.
 type Stats struct {
-	Behaviours     int            `json:"behaviours"`
-	Steps          int            `json:"steps"`
-	CheckedSteps   int            `json:"checked_steps"`
-	Ops            map[string]int `json:"ops"`
-	Transitions    map[string]int `json:"overwrite_classes"` // insert, move, same-box-other-kind, to-string, ...
-	Queries        int            `json:"queries_compared"`
-	QueriesByKind  map[string]int `json:"queries_by_kind"`
-	NonEmpty       int            `json:"queries_expecting_ids"`
-	IdsAgreed      int            `json:"ids_agreed"`
-	ClipQueries    int            `json:"clipby_queries"`
-	ClipEmpty      int            `json:"clipby_queries_with_empty_area"`
-	SparseQueries  int            `json:"sparse_queries"`
-	SparseThinned  int            `json:"sparse_replies_smaller_than_exact"`
-	OtherKey       int            `json:"absent_key_queries"`
-	Audits         int            `json:"audits"`
-	FillerSets     int            `json:"filler_sets"`
-	FillerDels     int            `json:"filler_dels"`
-	MaxFillers     int            `json:"max_fillers_alive"`
-	ByEmbedding    map[string]int `json:"checked_steps_by_embedding"`
-	Renderings     map[string]int `json:"object_renderings"`
-	AreaRenderings map[string]int `json:"area_renderings"`
-	Classes        map[string]int `json:"mismatch_classes"`
-	CorruptedSteps int            `json:"selftest_corrupted_steps"`
-	FlaggedSteps   int            `json:"steps_with_mismatch"`
+	Behaviours       int            `json:"behaviours"`
+	Steps            int            `json:"steps"`
+	CheckedSteps     int            `json:"checked_steps"`
+	Ops              map[string]int `json:"ops"`
+	Transitions      map[string]int `json:"overwrite_classes"` // insert, move, same-box-other-kind, to-string, ...
+	Queries          int            `json:"queries_compared"`
+	QueriesByKind    map[string]int `json:"queries_by_kind"`
+	NonEmpty         int            `json:"queries_expecting_ids"`
+	IdsAgreed        int            `json:"ids_agreed"`
+	ClipQueries      int            `json:"clipby_queries"`
+	ClipEmpty        int            `json:"clipby_queries_with_empty_area"`
+	SparseQueries    int            `json:"sparse_queries"`
+	SparseThinned    int            `json:"sparse_replies_smaller_than_exact"`
+	OtherKey         int            `json:"absent_key_queries"`
+	Audits           int            `json:"audits"`
+	FillerSets       int            `json:"filler_sets"`
+	FillerDels       int            `json:"filler_dels"`
+	MaxFillers       int            `json:"max_fillers_alive"`
+	ByEmbedding      map[string]int `json:"checked_steps_by_embedding"`
+	Renderings       map[string]int `json:"object_renderings"`
+	AreaRenderings   map[string]int `json:"area_renderings"`
+	Classes          map[string]int `json:"mismatch_classes"`
+	CorruptedSteps   int            `json:"selftest_corrupted_steps"`
+	CorruptedFlagged int            `json:"selftest_corrupted_steps_noticed"`
+	FlaggedSteps     int            `json:"steps_with_mismatch"`
 }
 
 func NewStats() *Stats {
@@ -128,6 +129,7 @@ func (s *Stats) Add(o *Stats) {
 	s.OtherKey += o.OtherKey
 	s.Audits += o.Audits
 	s.CorruptedSteps += o.CorruptedSteps
+	s.CorruptedFlagged += o.CorruptedFlagged
 	s.FlaggedSteps += o.FlaggedSteps
 	s.FillerSets += o.FillerSets
 	s.FillerDels += o.FillerDels
@@ -355,11 +357,11 @@ func (r *Runner) plan(b *Behaviour) fillerPlan {
 	}
 	if r.o.BigEvery > 0 && r.nrun%r.o.BigEvery == r.o.BigEvery-1 {
 		p.base = r.o.BigFillers
-		p.churnP = 0.3
-	}
-	// long behaviours: bound the total work
-	if len(b.H) > 8 && p.base > r.o.Fillers {
 		p.churnP = 0.1
+	}
+	// bound the total filler work of one behaviour (about six populations plus a constant)
+	if budget, cost := float64(6*p.base+3000), p.churnP*float64(2*p.base*len(b.H)); cost > budget {
+		p.churnP *= budget / cost
 	}
 	return p
 }
@@ -672,6 +674,9 @@ func (r *Runner) runOne(idx int, b *Behaviour, e *Embedding, st *Stats) ([]Misma
 		}
 		if len(ms) > nbefore {
 			st.FlaggedSteps++
+			if corrupted {
+				st.CorruptedFlagged++
+			}
 		}
 	}
 	return ms, nil
